@@ -24,6 +24,7 @@ fn main() {
         "C05" => props::c05::run(tier),
         "C07" => props::c07::run(tier),
         "C09" => props::c09::run(tier),
+        "C10" => props::c10::run(tier),
         "C12" => props::c12::run(tier),
         "C13" => props::c13::run(tier),
         "C14" => props::c14::run(tier),
